@@ -35,6 +35,14 @@ type Engine struct {
 	specText  string
 	externals map[string]*Contract
 	loadErrs  []string
+	ifaceMeths []*ifaceMeth
+	known      []*KnownFinding
+}
+
+type ifaceMeth struct {
+	ct    *Contract
+	iface types.Type
+	meth  *types.Func
 }
 
 type sentinel struct {
@@ -121,7 +129,42 @@ func loadEngine(repo string) (*Engine, error) {
 			}
 		}
 	}
+	e.synthRefinements()
 	return e, nil
+}
+
+// synthRefinements gives every method of the module that implements an
+// interface method under contract a (possibly empty) contract of its own, so
+// that it is verified against the interface-level clauses.
+func (e *Engine) synthRefinements() {
+	for _, f := range e.modFuncs {
+		if f.Signature.Recv() == nil || f.Blocks == nil || e.contracts[f] != nil {
+			continue
+		}
+		for _, im := range e.ifaceMeths {
+			if im.meth.Name() == f.Name() && types.Implements(f.Signature.Recv().Type(), im.iface.Underlying().(*types.Interface)) {
+				c := &Contract{Ref: funcKey(f), PkgPath: funcPkg(f).Path(), File: im.ct.File, Line: im.ct.Line, Modes: map[string]string{}, Props: nil, Synth: true}
+				e.contracts[f] = c
+				e.ctFunc[c] = f
+				e.allCts = append(e.allCts, c)
+				break
+			}
+		}
+	}
+}
+
+// refinedBy returns the interface-method contracts a method must refine.
+func (e *Engine) refinedBy(f *ssa.Function) []*ifaceMeth {
+	var out []*ifaceMeth
+	if f.Signature.Recv() == nil {
+		return nil
+	}
+	for _, im := range e.ifaceMeths {
+		if im.meth.Name() == f.Name() && types.Implements(f.Signature.Recv().Type(), im.iface.Underlying().(*types.Interface)) {
+			out = append(out, im)
+		}
+	}
+	return out
 }
 
 var methRe = regexp.MustCompile(`^\((\*?)([A-Za-z_][A-Za-z0-9_]*)\)\.([A-Za-z_][A-Za-z0-9_]*)((\$\d+)*)$`)
@@ -137,6 +180,24 @@ func (e *Engine) bindContract(c *Contract) error {
 			return fmt.Errorf("%s:%d: bad interface method reference %q", c.File, c.Line, c.Ref)
 		}
 		e.ifaceCt[c.PkgPath+"."+m[1]+"."+m[2]] = c
+		tn := e.tpkgs[c.PkgPath].Scope().Lookup(m[1])
+		if tn == nil {
+			return fmt.Errorf("%s:%d: interface %s not found", c.File, c.Line, m[1])
+		}
+		it, ok := tn.Type().Underlying().(*types.Interface)
+		if !ok {
+			return fmt.Errorf("%s:%d: %s is not an interface", c.File, c.Line, m[1])
+		}
+		var mf *types.Func
+		for i := 0; i < it.NumMethods(); i++ {
+			if it.Method(i).Name() == m[2] {
+				mf = it.Method(i)
+			}
+		}
+		if mf == nil {
+			return fmt.Errorf("%s:%d: interface %s has no method %s", c.File, c.Line, m[1], m[2])
+		}
+		e.ifaceMeths = append(e.ifaceMeths, &ifaceMeth{ct: c, iface: tn.Type(), meth: mf})
 		return nil
 	}
 	if m := extRe.FindStringSubmatch(c.Ref); m != nil {
